@@ -11,6 +11,9 @@ Line protocol (one case per line):
     -> in=<names> out=<names> mdas=<groups of the inner MDAs | -> flow=<data flow edges | -> val=<name=value,...>
   init <disc/defaults> ... | avail1,avail2     disc/defaults = name:ins>outs/def1,def2
     -> order=<indices> | E:value
+  nest <0|1 parallel tasks> <item/item/...> <ldisc> ... | x=1/2 ...
+       item = P<i> | C<i,j,..> (MDOChain) | M<i,j,..> (MDAJacobi built beforehand) | G<i,j,..> (MDAGaussSeidel)
+    -> in= out= mdas=<groups of items with an inner MDA> flow=- val=
 -/
 
 def parseNames (s : String) : List String :=
@@ -112,6 +115,31 @@ def chainAnswer (mode : String) (lds : List LinDisc) (ext : List (String × Rat)
   let flow := if mode = "mdo" || mode = "seqchain" then showEdges (disciplinesCouplings ds) else "-"
   s!"in={showNames ins} out={showNames outs} mdas={mdas} flow={flow} val={showVals e1 (sortDedup (gr.1 ++ gr.2))}"
 
+def parseIdx (s : String) : Option (List Nat) :=
+  if s = "" then some [] else (s.splitOn ",").mapM String.toNat?
+
+/-- `P3` plain discipline 3, `C0,1` MDOChain of 0 then 1, `M0,1` MDAJacobi built beforehand,
+    `G0,1` MDAGaussSeidel built beforehand. -/
+def parseItem (t : String) : Option Item :=
+  match t.toList with
+  | 'P' :: r => (String.ofList r).toNat?.map Item.plain
+  | 'C' :: r => (parseIdx (String.ofList r)).map Item.chain
+  | 'M' :: r => (parseIdx (String.ofList r)).map (fun ms => Item.mda ms false)
+  | 'G' :: r => (parseIdx (String.ofList r)).map (fun ms => Item.mda ms true)
+  | _ => none
+
+def nestAnswer (par : Bool) (items : List Item) (lds : List LinDisc) (ext : List (String × Rat)) :
+    String :=
+  let ds := lds.map (·.disc)
+  let tds := items.map (Item.disc ds)
+  let gr := mdaChainGrammarWith tds (sequence tds) par false (requiresMdaK tds (kindAt items))
+  let ins := sortDedup gr.1
+  let outs := sortDedup gr.2
+  let e0 : Env := ins.map (fun k =>
+      (match ext.find? (fun p => p.1 = k) with | some p => (k, p.2) | none => (k, 0)))
+  let e1 := nestedEval lds items par e0
+  s!"in={showNames ins} out={showNames outs} mdas={showGroups (nestedInnerMdas ds items)} flow=- val={showVals e1 (sortDedup (gr.1 ++ gr.2))}"
+
 def parseInitDisc (t : String) : Option (Disc × List String) :=
   match t.splitOn "/" with
   | [d, defs] => (parseDisc d).map (fun x => (x, parseNames defs))
@@ -128,6 +156,11 @@ def answer (line : String) : String :=
     match dt.mapM parseLinDisc, et.mapM parseKV with
     | some lds, some ext => chainAnswer mode lds ext
     | _, _ => "bad-chain"
+  | "nest" :: par :: its :: rest =>
+    let (dt, et) := splitBar rest
+    match (its.splitOn "/").mapM parseItem, dt.mapM parseLinDisc, et.mapM parseKV with
+    | some items, some lds, some ext => nestAnswer (par = "1") items lds ext
+    | _, _, _ => "bad-nest"
   | "init" :: rest =>
     let (dt, avt) := splitBar rest
     match dt.mapM parseInitDisc with
